@@ -11,6 +11,23 @@ fn main() {
             let probe: Vec<u16> = input["probe"].as_array().map(|a| a.iter().map(|x| x.as_u64().unwrap_or(0) as u16).collect()).unwrap_or_default();
             return rdata::observe_bitmap(&adds, &probe);
         }
+        match input["mode"].as_str() {
+            Some("svcparams") => {
+                let pushes: Vec<(u16, Vec<u8>)> = input["pushes"].as_array().unwrap().iter()
+                    .map(|x| (x["k"].as_u64().unwrap() as u16, bytes_of(&x["v"]))).collect();
+                return rdata::observe_svcparams(&pushes);
+            }
+            Some("txt") => {
+                let ops: Vec<(String, usize)> = input["ops"].as_array().unwrap().iter()
+                    .map(|x| (x["op"].as_str().unwrap().to_string(), x["n"].as_u64().unwrap() as usize)).collect();
+                return rdata::observe_txt(&ops);
+            }
+            Some("alpn") => {
+                let ids: Vec<Vec<u8>> = input["ids"].as_array().unwrap().iter().map(bytes_of).collect();
+                return rdata::observe_alpn(&ids);
+            }
+            _ => {}
+        }
         let msg = bytes_of_wide(&input["msg"]);
         let may = input["mayCompress"].as_bool().unwrap_or(false);
         let strict = input["strictOpts"].as_bool().unwrap_or(false);
